@@ -112,7 +112,9 @@ impl SnapshotWriterActor {
         .wait(ctx);
     }
 
-    fn flush(&mut self, ctx: &mut Context<Self>) {
+    /// `done` is signalled when the flush has completed (the pending writes of a tokio file
+    /// only reach the file while a later operation on it is awaited)
+    fn flush(&mut self, ctx: &mut Context<Self>, done: tokio::sync::oneshot::Sender<bool>) {
         let mut writer = self.inner_writer.take().unwrap();
         async move {
             writer.flush().await?;
@@ -122,7 +124,9 @@ impl SnapshotWriterActor {
         .map(|v: anyhow::Result<SnapshotWriter>, act, ctx| {
             if let Ok(v) = v {
                 act.inner_writer = Some(v);
+                done.send(true).ok();
             } else {
+                done.send(false).ok();
                 ctx.stop()
             }
         })
@@ -151,17 +155,25 @@ pub enum SnapshotWriterResponse {
 }
 
 impl Handler<SnapshotWriterRequest> for SnapshotWriterActor {
-    type Result = anyhow::Result<SnapshotWriterResponse>;
+    type Result = ResponseFuture<anyhow::Result<SnapshotWriterResponse>>;
 
     fn handle(&mut self, msg: SnapshotWriterRequest, ctx: &mut Self::Context) -> Self::Result {
         match msg {
             SnapshotWriterRequest::Record(record) => {
                 self.write(ctx, record);
-                Ok(SnapshotWriterResponse::None)
+                Box::pin(async { Ok(SnapshotWriterResponse::None) })
             }
             SnapshotWriterRequest::Flush => {
-                self.flush(ctx);
-                Ok(SnapshotWriterResponse::Path(self.path.clone()))
+                // 应答必须在flush完成之后: 调用方收到应答后立即把该镜像登记到索引文件中
+                let (tx, rx) = tokio::sync::oneshot::channel();
+                self.flush(ctx, tx);
+                let path = self.path.clone();
+                Box::pin(async move {
+                    match rx.await {
+                        Ok(true) => Ok(SnapshotWriterResponse::Path(path)),
+                        _ => Err(anyhow::anyhow!("snapshot writer flush failed")),
+                    }
+                })
             }
         }
     }
